@@ -950,6 +950,9 @@ func makeObject(props map[string]string, schema *openapi3.SchemaRef) (map[string
 	return result, nil
 }
 
+// maxSparseArrayPadding is the number of missing indexes a deepObject array may have
+const maxSparseArrayPadding = 1 << 12
+
 // example: map[0:map[key:true] 1:map[key:false]] -> [map[key:true] map[key:false]]
 func sliceMapToSlice(m map[string]any) ([]any, error) {
 	var result []any
@@ -967,6 +970,11 @@ func sliceMapToSlice(m map[string]any) ([]any, error) {
 		if k > max {
 			max = k
 		}
+	}
+	// missing indexes are padded with nil: an index far beyond the number of elements given
+	// would make a short query string allocate without bound
+	if max >= len(m)+maxSparseArrayPadding {
+		return nil, fmt.Errorf("array index %d is too large for %d element(s)", max, len(m))
 	}
 	for i := 0; i <= max; i++ {
 		val, ok := m[strconv.Itoa(i)]
